@@ -7,7 +7,9 @@
 //     calls to always-registered entries succeed, never-registered ones fail with not-found;
 //  3. crash search: register ∥ get-prompt / read-resource (and every other reader) hammering in a sub-process —
 //     `fatal error: concurrent map …` kills a Go process and cannot be recovered, so the workload runs in a
-//     re-executed copy of this binary and the exit status / stderr are observed.
+//     re-executed copy of this binary and the exit status / stderr are observed;
+//  4. re-entrancy and slow callbacks (reent.go, reent_other.go): handlers and list filters that register /
+//     unregister while they run, parked handlers — every registry operation must complete (bounded wait).
 package main
 
 import (
@@ -28,7 +30,13 @@ func main() {
 			"non-trivial = a live entry was replaced or removed and the registry observed afterwards. " +
 			"concurrent (sub-processes, one per workload: tools all ops, tools under unthrottled registration, prompts list, prompts get, resources list, resources read, templates list, notification handlers): 3 writer goroutines (register / re-register / unregister on disjoint names) against 6 reader goroutines on 4 client sessions; " +
 			"each observation is checked post hoc against the writers' logical-clock log; non-trivial = an observation whose window overlapped at least one write. " +
-			"register race (sub-processes, per registry): 8 fresh servers x 1000 rounds in which 8 goroutines register the SAME fresh name at the same moment (GOMAXPROCS >= 4), then list + hook: one entry per name, order slice == key set",
+			"register race (sub-processes, per registry): 8 fresh servers x 1000 rounds in which 8 goroutines register the SAME fresh name at the same moment (GOMAXPROCS >= 4), then list + hook: one entry per name, order slice == key set. " +
+			"reentrant (one sub-process, one fresh server per case): every user callback of the streamable Server {notification, tool, prompt, resource, resources handler, tool / prompt / resource list filter} x " +
+			"every operation called from INSIDE the callback {register new / re-register / unregister in each of the five registries, unregister several, GetTool, GetTools, and the running entry unregistering / replacing ITSELF}: " +
+			"operation and request must return within 5 s (else registry:deadlock:<callback>:<operation>), the completed case is a sequential history diffed with the model (look-up, inner operation, 17+ observations); " +
+			"a parked callback of each kind (event-based) while ~30 operations on all registries (register, re-register, unregister, list, dispatch of other entries, twice) must each complete within 5 s; " +
+			"the same for the notification handlers of SSEServer (raw SSE peer) and StdioServer (in-process pipes): 8 inner operations and a parked handler each; " +
+			"non-trivial = the inner operation replaced or removed a live entry",
 		Run: func(c *hk.Ctx) {
 			runSequential(c)
 			runConcurrent(c)
